@@ -77,6 +77,13 @@ def reject_shapes():
     mk('rej:double-include', {'main.asm': '#include "a.asm"\nnop\n#include "a.asm"\n', 'a.asm': 'nop\n'})
     mk('rej:double-include-nested', {'main.asm': '#include "a.asm"\n#include "b.asm"\n', 'a.asm': '#include "b.asm"\n', 'b.asm': 'nop\n'})
     mk('rej:self-include', {'main.asm': 'nop\n#include "main.asm"\n'})
+    # text after the file name is neither assembled nor silently dropped
+    mk('rej:text-after-the-file-name', {'main.asm': 'nop\n#include "a.asm" .byte 9\n', 'a.asm': 'nop\n'})
+    mk('rej:second-include-on-the-line', {'main.asm': 'nop\n#include "a.asm" #include "b.asm"\n', 'a.asm': 'nop\n', 'b.asm': 'nop\n'})
+    # one file is one file, however it is named: the main file behind an include guard, a symbolic link
+    mk('rej:main-file-included-again-behind-a-guard',
+       {'main.asm': '#ifndef ONCE\n#define ONCE 1\n#include "a.asm"\n#endif\n.byte 1\n', 'a.asm': '.byte 2\n#include "main.asm"\n'})
+    mk('rej:one-file-under-two-names', {'main.asm': '#include "a.asm"\n#include "b.asm"\nnop\n', 'a.asm': '.byte 2\n', 'b.asm': 'SYMLINK:a.asm'})
     mk('rej:missing-file', {'main.asm': 'nop\n#include "nothere.asm"\n'})
     mk('rej:ambiguous-name', {'main.asm': 'nop\n#include "a.asm"\n', 'd1/a.asm': 'nop\n', 'd2/a.asm': '.byte 2\n'},
        include_dirs=['d1', 'd2'])
@@ -149,6 +156,12 @@ def shapes(tier, seed):
         S.append(SplitShape(f'dirs:{nm}', prog={'main.asm': prog}, files=files,
                             cfgargs=dict(origin=Sym('o0', 0, 0x1000), consts={'v2': c02.SYMS['v2'], 'o0': (0, 0x1000)}),
                             props=['C17'], binary=True, start=Sym('o0', 0, 0x1000), include_dirs=dirs, width=48, expect=['ok']))
+    # a comment after the file name is still a comment
+    files = {'main.asm': '\n'.join(lines[:2]) + '\n#include "part.asm"   ; the middle part\n' + lines[4] + '\n#include "top.asm";x\n',
+             'part.asm': '\n'.join(lines[2:4]) + '\n', 'top.asm': '; nothing\n'}
+    S.append(SplitShape('comment-after-the-file-name', prog={'main.asm': prog}, files=files,
+                        cfgargs=dict(origin=Sym('o0', 0, 0x1000), consts={'v2': c02.SYMS['v2'], 'o0': (0, 0x1000)}),
+                        props=['C17'], binary=True, start=Sym('o0', 0, 0x1000), width=48, expect=['ok']))
     # the quoted file name is a name, not program text: preprocessor symbols that happen to be spelled like one of its words
     # (defined in the source or by the ISA definition) leave it alone
     for nm, (defs, symbols) in {'define-with-value': (['#define part 3', '#define top other'], ()), 'define-bare': (['#define part', '#define asm'], ()),
